@@ -63,7 +63,8 @@ pub fn compare_exec_projected(m: &Value, net: &Net, st: &StepRecord, fields: &[&
 
 fn stores_cmp(m: &Value, f: &Facts, on: bool) -> Option<String> {
     if !on { return None; }
-    for (name, store) in [("values", "value_store"), ("tetraplets", "tetraplet_store"), ("service_results", "service_result_store")] {
+    for (name, store) in [("values", "value_store"), ("tetraplets", "tetraplet_store"), ("service_results", "service_result_store"),
+                          ("canon_elements", "canon_element_store"), ("canon_results", "canon_result_store")] {
         let mut real: Vec<String> = f.store(store).as_object().map(|o| o.keys().cloned().collect()).unwrap_or_default(); real.sort();
         if sorted(&m[name]) != real { return Some(format!("{store} keys differ: model {} vs implementation {}", sorted(&m[name]).len(), real.len())); }
     }
@@ -78,7 +79,8 @@ pub fn run(ctx: &mut Ctx, rep: &mut Report) {
     let n_hist = if ctx.thorough { 3000 } else { 150 };
     for _ in 0..n_hist {
         let budget = 6 + rng.below(12);
-        let h = gen_history(&mut rng, false, false, budget, 50);
+        let streams = std::env::var("AQUA_EXECCORR_STREAMS").map(|v| v != "0").unwrap_or(true) && rng.chance(1, 2);
+        let h = gen_history(&mut rng, streams, false, budget, 50);
         let ast = match air_parser::parse(&h.air) { Ok(a) => serde_json::to_value(&a).unwrap(), Err(_) => { rep.stat("script_does_not_parse"); continue; } };
         note_history(rep, &h);
         for st in &h.net.log {
@@ -92,7 +94,7 @@ pub fn run(ctx: &mut Ctx, rep: &mut Report) {
             rep.model_compared += 1;
             if m.get("panic").is_some() { rep.disagree(json!({"op": "exec", "why": "model panics, implementation does not", "model": m, "air": h.air, "step": step_json(&h.net, st)})); continue; }
             if let Some(why) = compare_exec(&m, &h.net, st) {
-                rep.disagree(json!({"op": "exec", "why": why, "air": h.air, "step": step_json(&h.net, st), "model_code": m["code"], "model_msg": m["msg"]}));
+                rep.disagree(json!({"op": "exec", "why": why, "air": h.air, "step": step_json(&h.net, st), "model_code": m["code"], "model_msg": m["msg"], "model_detail": m["detail"]}));
             }
         }
     }
